@@ -56,9 +56,14 @@ MANIFEST = {
             "(exchange_converges_instances); the link 'every class of the child follows the key-state machine under Pair.sync' and "
             "hierarchies deeper than two levels are covered by the lock-step run only; (2) the published level of never_overclaims "
             "is evaluated by the oracle (NoOverclaimPublished) and rests on C01's objects_mirror; (3) the state-level ActiveChildHasCert "
-            "needs that no two children present the same key. F-C02-1 and F-C03-1 are fixed (bb96d233, 43d7eca0): their scenarios stay "
-            "in the corpus and fail the check if the behaviour returns. Open: F-C04-3 (a mapping to a class the parent does not have can "
-            "shadow the class a child is certified under; its syncs then never become idempotent). rpki-rs resource arithmetic, real "
+            "needs that no two children present the same key. F-C02-1, F-C03-1, F-C04-3, F-C02-2 and F-C02-3 are fixed (bb96d233, 43d7eca0, "
+            "02d8de59, 7be8c4c6): their scenarios stay in the corpus and fail the check if the behaviour returns; the old behaviour is kept "
+            "as pinned_sync_stuck_after_parent_side_revocation / pinned_sync_alternates_with_non_injective_mapping. Replayed on the real "
+            "code and still open (corpus/system-findings/c02-*.ops; no oracle of the lock-step run fires on them, the non-convergence is the "
+            "finding): a parent-side re-issue the child never notices (sync_misses_parent_side_reissue), an open request for a class the "
+            "parent has lost (sync_stuck_with_request_for_lost_class - a krill parent answers with an error, never 1201/1202, the child "
+            "keeps the request for ever), and the residuals of the two fixes (a class created after a mapping under the mapped name; a "
+            "child removed and re-added during its key roll). rpki-rs resource arithmetic, real "
             "certificates and the wall clock are outside the model.",
     "technique": "Lean 4 proof (invariants by induction over command histories, finite abstraction + decide, concrete counter-examples) "
                  "+ correspondence check",
